@@ -83,7 +83,7 @@ def reads(h, rng, t, bh, keys, full=False):
         h.emit("nextint %d %d" % (t, bh))
 
 
-def g1(seed, ntx=12, nops=25, universe=64, reads_every=True, rollback=0.15, reopen=0.1, long_keys=False):
+def g1(seed, ntx=12, nops=25, universe=64, reads_every=True, rollback=0.15, reopen=0.1, long_keys=False, engine=False):
     """uniform ops over a small key universe + special keys; bucket names overlap keys; depth <= 3"""
     rng = random.Random(seed)
     h = H()
@@ -118,9 +118,9 @@ def g1(seed, ntx=12, nops=25, universe=64, reads_every=True, rollback=0.15, reop
             elif r < 0.80:
                 h.emit("get %d %d %s" % (t, bh, k))
             else:
-                if reads_every:
+                if reads_every and not engine:
                     reads(h, rng, t, bh, keys)
-        if rng.random() < 0.3:
+        if rng.random() < 0.3 and not engine:
             h.emit("dump %d" % t)
         if rng.random() < rollback:
             h.emit("drop %d" % t)
@@ -254,7 +254,7 @@ def g3_subsets(nkeys=12, keylen=200, subs=(2, 5, 9), masks=None, touches=None, i
     return out
 
 
-def g4(seed, ntx=8):
+def g4(seed, ntx=8, engine=False):
     """nested buckets with bucket deletes at every level inside one transaction"""
     rng = random.Random(seed)
     h = H()
@@ -304,7 +304,8 @@ def g4(seed, ntx=8):
                     h.emit("put %d %d %s %s" % (t, tgt, lk(rng.randrange(nk + 5), kl), rval(rng, [0, 16, 300])))
                 else:
                     h.emit("del %d %d %s" % (t, tgt, lk(rng.randrange(nk + 5), kl)))
-        h.emit("dump %d" % t)
+        if not engine:
+            h.emit("dump %d" % t)
         if rng.random() < 0.15:
             h.emit("drop %d" % t)
         else:
@@ -739,14 +740,23 @@ def g10(seed, workload, ntx=300, pin=(100, 150), reopen_every=0):
     t = h.begin(True)
     b = h.bucket("create", t, 0, hx("b"))
     for k in keys:
-        h.emit("put %d %d %s %s" % (t, b, k, {"fixed1": "r100:1", "fixedN": "r2500:1", "var": "r300:1", "bdel": "r100:1"}[workload]))
+        h.emit("put %d %d %s %s" % (t, b, k, {"fixed1": "r100:1", "fixedN": "r2500:1", "var": "r300:1", "bdel": "r100:1", "bdelN": "r100:1"}[workload]))
     h.emit("commit %d" % t)
     h.emit("snap")
     reader = None
+    chain = []          # pin == "chain": overlapping short readers, so that some reader is open at every writer begin
     for i in range(ntx):
-        if pin and i == pin[0]:
+        if pin == "chain":
+            if i % 20 == 10:
+                chain.append((h.begin(False), i + 25))
+            for (rd_, until) in list(chain):
+                if i >= until:
+                    h.emit("dump %d" % rd_)
+                    h.emit("drop %d" % rd_)
+                    chain.remove((rd_, until))
+        elif pin and i == pin[0]:
             reader = h.begin(False)
-        if pin and i == pin[1] and reader is not None:
+        if pin and pin != "chain" and i == pin[1] and reader is not None:
             h.emit("dump %d" % reader)
             h.emit("drop %d" % reader)
             reader = None
@@ -765,6 +775,15 @@ def g10(seed, workload, ntx=300, pin=(100, 150), reopen_every=0):
                     h.emit("del %d %d %s" % (t, b, k))
                 else:
                     h.emit("put %d %d %s %s" % (t, b, k, rval(rng, [0, 16, 100, 300, 700, 1500, 3000])))
+        elif workload == "bdelN":
+            if i % 2 == 0:
+                s = h.bucket("create", t, b, hx("tmp"))
+                for j in range(6):
+                    h.emit("put %d %d %s r3000:%d" % (t, s, hx("t%02d" % j), j))
+                h.emit("put %d %d %s r1500:1" % (t, s, "r1300:5"))
+            else:
+                h.emit("delb %d %d %s" % (t, b, hx("tmp")))
+            h.emit("put %d %d %s r100:%d" % (t, b, rng.choice(keys), rng.randrange(256)))
         else:
             if i % 2 == 0:
                 s = h.bucket("create", t, b, hx("tmp"))
@@ -779,6 +798,8 @@ def g10(seed, workload, ntx=300, pin=(100, 150), reopen_every=0):
             h.emit("reopen")
     if reader is not None:
         h.emit("drop %d" % reader)
+    for (rd_, until) in chain:
+        h.emit("drop %d" % rd_)
     r = h.begin(False)
     h.emit("dump %d" % r)
     h.emit("drop %d" % r)
